@@ -13,4 +13,5 @@ import (
 	_ "verifharness/props/c10"
 	_ "verifharness/props/c11"
 	_ "verifharness/props/c12"
+	_ "verifharness/props/c13"
 )
